@@ -25,7 +25,10 @@ RULE = ("Hypothesis builds programs over m l c v y h re / S s f f* B B* b b* n /
 ASSUMPTIONS = ["every subpath starts with m or re and has >= 1 segment; F, W, W*, Pattern colour spaces not generated",
                "exact regime: all products/sums are exactly representable in binary64"]
 
-CSPACES = {"DeviceGray": 1, "DeviceRGB": 3, "DeviceCMYK": 4, "CS1": 1, "CS3": 3, "CS4": 4}
+# resource name -> number of colour components (ISO 32000-1 8.6): ICCBased /N; DeviceN = number of colorant names,
+# whatever its alternate space has; Separation and Indexed 1; Lab and CalRGB 3; CalGray 1
+CSPACES = {"DeviceGray": 1, "DeviceRGB": 3, "DeviceCMYK": 4, "CS1": 1, "CS3": 3, "CS4": 4,
+           "DN3": 3, "DN1": 1, "DN4": 4, "Sep": 1, "Idx": 1, "Lab": 3, "CRGB": 3, "CGray": 1}
 
 
 def build_pdf(case):
@@ -34,6 +37,18 @@ def build_pdf(case):
     for i, n in ((30, 1), (31, 3), (32, 4)):
         objs[i] = W.Stream(W.D(N=n), b"\x00" * 8)
     cs = {b"CS1": [W.N("ICCBased"), W.R(30)], b"CS3": [W.N("ICCBased"), W.R(31)], b"CS4": [W.N("ICCBased"), W.R(32)]}
+    # a sampled tint transform is not needed for the colour *operands*; type 2 (exponential) functions stand in
+    objs[33] = W.D(FunctionType=2, Domain=[0, 1], C0=[0, 0, 0, 0], C1=[1, 1, 1, 1], N=1)
+    cs.update({
+        b"DN3": [W.N("DeviceN"), [W.N("A"), W.N("B"), W.N("C")], W.N("DeviceCMYK"), W.R(33)],
+        b"DN1": [W.N("DeviceN"), [W.N("Spot")], W.N("DeviceRGB"), W.R(33)],
+        b"DN4": [W.N("DeviceN"), [W.N("A"), W.N("B"), W.N("C"), W.N("D")], W.N("DeviceGray"), W.R(33)],
+        b"Sep": [W.N("Separation"), W.N("Spot"), W.N("DeviceCMYK"), W.R(33)],
+        b"Idx": [W.N("Indexed"), W.N("DeviceRGB"), 1, b"\x00\x00\x00\xff\xff\xff"],
+        b"Lab": [W.N("Lab"), W.D(WhitePoint=[W.Real("0.9505"), 1, W.Real("1.089")])],
+        b"CRGB": [W.N("CalRGB"), W.D(WhitePoint=[W.Real("0.9505"), 1, W.Real("1.089")])],
+        b"CGray": [W.N("CalGray"), W.D(WhitePoint=[W.Real("0.9505"), 1, W.Real("1.089")])],
+    })
     fobj = {name: 20 + i for i, name in enumerate(forms)}
     xobjs = {name.encode(): W.R(fobj[name]) for name in forms}
     res = {b"ColorSpace": cs}
@@ -205,6 +220,10 @@ def painted(draw):
     sps = draw(st.lists(subpath(), min_size=1, max_size=3))
     out = []
     for sp in sps:
+        if draw(st.integers(0, 5)) == 0:
+            # a moveto that the next moveto overrides: no vestige of it remains in the path (ISO 32000-1 Table 59)
+            x, y = draw(P)
+            out.append(("m", x, y))
         out.extend(sp)
     out.append((draw(PAINT),))
     return out
